@@ -136,7 +136,7 @@ class ExcHierarchy:
 
 
 class Event:
-    __slots__ = ("kind", "node", "func", "depth", "fterm", "args", "kwargs", "targets", "result",
+    __slots__ = ("known", "handlers", "kind", "node", "func", "depth", "fterm", "args", "kwargs", "targets", "result",
                  "ext", "sched", "cb", "cbargs", "cbkwargs", "delay", "in_comp", "raised",
                  "target", "value", "frame", "inlined", "recv", "seq", "attrname", "coro", "loopdepth")
 
@@ -167,6 +167,8 @@ class Event:
         self.attrname = None
         self.coro = False
         self.loopdepth = 0
+        self.known = None
+        self.handlers = ()
 
     @property
     def loc(self):
@@ -306,6 +308,7 @@ class Policy:
     inline_ctors = True
     fork_uncaught = False  # fork raise outcomes even when no enclosing handler exists
     load_raises = ("KeyError",)  # what a subscript load may raise
+    snapshot_facts = False  # record the path facts / enclosing handlers on every call event
 
     def inline(self, fi: FuncInfo, depth: int, ev: Event) -> bool:
         return depth < self.max_depth
@@ -591,17 +594,23 @@ class Engine:
         parts = qual.rsplit(".", 1)
         return parts[0] in LISTENER_IFACES
 
-    def site(self, node, fi):
-        return (fi.module.short, getattr(node, "lineno", 0), getattr(node, "col_offset", 0))
+    def site(self, node, fi, s=None):
+        """identity of an evaluation: source position plus the loop-iteration stamp of the path, so
+        that one call expression evaluated in two unrolled iterations gives two distinct value terms"""
+        base = (fi.module.short, getattr(node, "lineno", 0), getattr(node, "col_offset", 0))
+        it = s.env.get("$iter") if s is not None else None
+        return base + (it,) if it else base
 
     # ------------------------------------------------------------------ public
     def paths(self, fi: FuncInfo, recv: t.Optional[str] = None, args=None, kwargs=None,
-              recv_term=None, depth=0, env0=None) -> t.List[Path]:
+              recv_term=None, depth=0, env0=None, known0=None) -> t.List[Path]:
         """enumerate the paths of function fi. recv = class qual of the receiver (for methods)"""
         self._budget = 0
         st = _State()
         if env0:
             st.env.update(env0)
+        if known0:
+            st.known.update(known0)
         self._bind_params(fi, st, recv, recv_term, args, kwargs, root=(depth == 0 and args is None))
         outs = self._run_body(fi, fi.node.body, st, depth)
         res = []
@@ -901,6 +910,7 @@ class Engine:
                 for s in frontier:
                     s1 = s.copy()
                     s1.loopdepth += 1
+                    s1.env["$iter"] = (s.env.get("$iter") or ()) + ((stmt.lineno, n),)
                     el = elems[n] if elems is not None else ("elem", it, site, n)
 
                     def bind(sb, ch, el=el):
@@ -912,6 +922,10 @@ class Engine:
                             continue
                         for k2, v2, s3 in self._run_body(fi, stmt.body, s2, depth):
                             s3.loopdepth = s.loopdepth
+                            if s.env.get("$iter"):
+                                s3.env["$iter"] = s.env["$iter"]
+                            else:
+                                s3.env.pop("$iter", None)
                             if k2 in ("normal", "continue"):
                                 nxt.append(s3)
                             elif k2 == "break":
@@ -955,8 +969,13 @@ class Engine:
                         out.append(("cut", None, s1))
                         continue
                     s1.loopdepth += 1
+                    s1.env["$iter"] = (s.env.get("$iter") or ()) + ((stmt.lineno, n),)
                     for k2, v2, s3 in self._run_body(fi, stmt.body, s1, depth):
                         s3.loopdepth = s.loopdepth
+                        if s.env.get("$iter"):
+                            s3.env["$iter"] = s.env["$iter"]
+                        else:
+                            s3.env.pop("$iter", None)
                         if k2 in ("normal", "continue"):
                             nxt.append(s3)
                         elif k2 == "break":
@@ -1154,7 +1173,8 @@ class Engine:
         return None
 
     def _pure(self, c) -> bool:
-        return not contains(c, lambda x: x[0] in ("call", "await", "unknown"))
+        # call terms carry their evaluation identity (site + iteration stamp) and denote one value
+        return not contains(c, lambda x: x[0] in ("await", "unknown"))
 
     def _learn(self, c, val: bool, s: _State):
         if not self._pure(c):
@@ -1180,10 +1200,14 @@ class Engine:
         e.seq = next(self._seq)
         e.frame = tuple(self._active)
         e.loopdepth = s.loopdepth
+        if kind == "call" and self.policy.snapshot_facts:
+            e.known = dict(s.known)
+            e.handlers = s.env.get("$handlers", ())
         s.events.append(e)
         return e
 
     def _raise_point(self, e: Event, s: _State, ch: _Chooser, node):
+        self.cur_state = s
         excs = self.policy.may_raise(e, self)
         if not excs:
             return
@@ -1468,7 +1492,7 @@ class Engine:
             if m is not None:
                 if m.kind == "property" and not is_clsobj:
                     if self.policy.inline_properties:
-                        return self._call_function(("bound", base, m.qual), (), (), self.site(node, fi), node, s, fi, depth, ch, prop=True)
+                        return self._call_function(("bound", base, m.qual), (), (), self.site(node, fi, s), node, s, fi, depth, ch, prop=True)
                     return ("attr", base, attr)
                 if m.kind == "staticmethod":
                     return ("func", m.qual)
@@ -1527,7 +1551,7 @@ class Engine:
             e.in_comp = True
         s.env.clear()
         s.env.update(saved)
-        return ("comp", kind, elt, tuple(gens))
+        return ("comp", kind, elt, tuple(gens), self.site(node, fi, s))
 
     # calls ----------------------------------------------------------------------
     def _eval_call(self, node: ast.Call, s: _State, fi: FuncInfo, depth, ch):
@@ -1549,7 +1573,7 @@ class Engine:
                     kwargs.append(("**", v))
             else:
                 kwargs.append((kw.arg, v))
-        return self._call_function(f, tuple(args), tuple(kwargs), self.site(node, fi), node, s, fi, depth, ch)
+        return self._call_function(f, tuple(args), tuple(kwargs), self.site(node, fi, s), node, s, fi, depth, ch)
 
     def _resolve_targets(self, f) -> t.Tuple[t.List[FuncInfo], t.Optional[tuple], t.Optional[str]]:
         """-> (targets, receiver term, receiver class)"""
@@ -1674,6 +1698,7 @@ class Engine:
         sub.heap = dict(s.heap)
         sub.known = dict(s.known)
         sub.env["$handlers"] = s.env.get("$handlers", ())
+        sub.env["$iter"] = (s.env.get("$iter") or ()) + ((-1, getattr(node, "lineno", 0), getattr(node, "col_offset", 0)),)
         sub.loopdepth = s.loopdepth
         recv_term = recv
         self._bind_params(callee, sub, rc, recv_term, args, kwargs, root=False)
@@ -1739,11 +1764,11 @@ class Engine:
         e.targets = [callee]
         if callee.is_async:
             e.coro = True
-            res = ("coro", f, args, kwargs, self.site(node, fi))
+            res = ("coro", f, args, kwargs, self.site(node, fi, s))
             e.result = res
             return res
         if callee.qual in self._active or depth + 1 > self.policy.max_depth + 2:
-            res = ("call", f, args, kwargs, self.site(node, fi))
+            res = ("call", f, args, kwargs, self.site(node, fi, s))
             e.result = res
             return res
         e.inlined = True
@@ -1752,6 +1777,7 @@ class Engine:
         sub.known = s.known
         sub.env["$outer"] = cenv
         sub.env["$handlers"] = s.env.get("$handlers", ())
+        sub.env["$iter"] = (s.env.get("$iter") or ()) + ((-1, getattr(node, "lineno", 0), getattr(node, "col_offset", 0)),)
         sub.loopdepth = s.loopdepth
         self._bind_params(callee, sub, None, None, args, kwargs, root=False)
         self._active.append(callee.qual)
